@@ -3,6 +3,7 @@ package variablesvalidation
 import (
 	"bytes"
 	"fmt"
+	"math"
 
 	"github.com/wundergraph/astjson"
 
@@ -488,6 +489,10 @@ func (v *variablesVisitor) traverseNamedTypeNode(jsonValue *astjson.Value, typeN
 				v.renderVariableInvalidNestedTypeError(jsonValue, fieldTypeDefinitionNode.Kind, typeName, false)
 				return
 			}
+			if !jsonNumberIsInt32(jsonValue) {
+				v.renderVariableInvalidNestedTypeError(jsonValue, fieldTypeDefinitionNode.Kind, typeName, false)
+				return
+			}
 		case "Float":
 			if jsonValue.Type() != astjson.TypeNumber {
 				v.renderVariableInvalidNestedTypeError(jsonValue, fieldTypeDefinitionNode.Kind, typeName, false)
@@ -515,4 +520,14 @@ func (v *variablesVisitor) traverseNamedTypeNode(jsonValue *astjson.Value, typeN
 			v.renderVariableEnumValueDoesNotExistError(typeName, value)
 		}
 	}
+}
+
+// jsonNumberIsInt32 reports whether a JSON number is an integral value within the signed 32-bit range of the Int scalar.
+// Integral values written with a fraction or an exponent (1.0, 1e3) are accepted.
+func jsonNumberIsInt32(value *astjson.Value) bool {
+	if n, err := value.Int64(); err == nil {
+		return n >= math.MinInt32 && n <= math.MaxInt32
+	}
+	f, err := value.Float64()
+	return err == nil && f == math.Trunc(f) && f >= math.MinInt32 && f <= math.MaxInt32
 }
